@@ -104,7 +104,13 @@ func runWriter(specPath string) int {
 			fmt.Println("writer: content:", err)
 			os.Exit(3)
 		}
-		return b
+		// hand the data over as a window of a larger buffer: bytes beyond len() must never reach the file
+		w := make([]byte, len(b)+24)
+		copy(w, b)
+		for i := len(b); i < len(w); i++ {
+			w[i] = 0xEE
+		}
+		return w[:len(b)]
 	}
 	var op func() error
 	switch spec.Writer {
